@@ -88,6 +88,15 @@ def run(ctx):
         g = tlc.run_tlc("PyAggr_Gen", None, cfg_text=gen_cfg([1, 2, 3], 1, 2, 3), workers=4, timeout=3000, on_case=on_case)
         if g.rc != 0 or g.errors:
             raise InfraError("PyAggr_Gen failed: %s %s" % (g.rc, g.tail[-10:]))
+    # declarations on their own, legal or not
+    decls = []
+    gd = tlc.run_tlc("PyAggr_GenDecl", None, cfg_text="CONSTANTS Vals = {1, 2} Bad = 99\nINIT GInit\nNEXT GNext\nINVARIANT Emit\n", workers=2, timeout=600,
+                     on_case=lambda c: decls.append(c))
+    if gd.rc != 0 or gd.errors:
+        raise InfraError("PyAggr_GenDecl failed: %s %s" % (gd.rc, gd.tail[-10:]))
+    for dc in sorted(decls, key=lambda c: json.dumps(c, sort_keys=True)):
+        on_case({"cfg": dc["cfg"], "decl": True, "ops": []})
+    counts["decls"] = len(decls)
     flush()
     nrep = 0
     for f in futs:
@@ -110,7 +119,7 @@ def run(ctx):
     cov.update({
         "traces_validated_against_impl": counts["scen"],
         "exhaustive": True,
-        "events": counts["events"],
+        "events": counts["events"], "declarations_judged": counts.get("decls", 0),
         "disagreeing_events": nrep,
         "samples": samples[:2] or [{"note": "no scenario"}],
         "evaluations": counts["scen"],
